@@ -65,4 +65,7 @@ def untranslated : List String := []
 /-- names of the translated definitions -/
 def translated : List String := ["HtlcInitGenesis_cond_1(htlc_State)", "HtlcInitGenesis_cond_2(htlc_Transfer)", "HtlcInitGenesis_cond_3(supply_IncomingSupply,incomingSupply)", "HtlcInitGenesis_cond_4(supply_OutgoingSupply,outgoingSupply)", "HtlcInitGenesis_cond_5(supply_CurrentSupply,limit_Limit)", "HtlcInitGenesis_cond_6(supply_IncomingSupply,limit_Limit)", "HtlcInitGenesis_cond_7(supply_IncomingSupply,supply_CurrentSupply,limit_Limit)", "HtlcInitGenesis_cond_8(supply_OutgoingSupply,limit_Limit)", "MtInitGenesis_call_SetDenomSequence_1_arg1(read_len_data_Collections)", "MtInitGenesis_mtSequence_1(mtSequence)", "MtInitGenesis_call_SetMTSequence_1_arg1(mtSequence)", "CoinswapInitGenesis_call_setSequence_1_arg1(genState_Sequence)", "FarmInitGenesis_cond_1(read_ctx_BlockHeight,pool_EndHeight)", "FarmInitGenesis_call_SetSequence_1_arg1(data_Sequence)"]
 
+/-- every rejecting guard of the translated functions, in source order -/
+def guards : List String := ["HtlcInitGenesis: err := types.ValidateGenesis(data); err != nil", "HtlcInitGenesis: err := k.SetParams(ctx, data.Params); err != nil", "HtlcInitGenesis: id, err := hex.DecodeString(htlc.Id); err != nil", "HtlcInitGenesis: htlc.State != types.Open", "HtlcInitGenesis: err := k.ValidateLiveAsset(ctx, htlc.Amount[0]); err != nil", "HtlcInitGenesis: !supply.IncomingSupply.Amount.Equal(incomingSupply)", "HtlcInitGenesis: !supply.OutgoingSupply.Amount.Equal(outgoingSupply)", "HtlcInitGenesis: limit, err := k.GetSupplyLimit(ctx, supply.CurrentSupply.Denom); err != nil", "HtlcInitGenesis: supply.CurrentSupply.Amount.GT(limit.Limit)", "HtlcInitGenesis: supply.IncomingSupply.Amount.GT(limit.Limit)", "HtlcInitGenesis: supply.IncomingSupply.Amount.Add(supply.CurrentSupply.Amount).GT(limit.Limit)", "HtlcInitGenesis: supply.OutgoingSupply.Amount.GT(limit.Limit)", "MtInitGenesis: err := types.ValidateGenesis(data); err != nil", "MtInitGenesis: addr, err := sdk.AccAddressFromBech32(o.Address); err != nil", "MtInitGenesis: err := k.IncreaseMTSupply(ctx, d.DenomId, b.MtId, b.Amount); err != nil", "MtInitGenesis: err := k.AddBalance(ctx, d.DenomId, b.MtId, b.Amount, addr); err != nil", "CoinswapInitGenesis: err := types.ValidateGenesis(genState); err != nil", "CoinswapInitGenesis: err := k.SetParams(ctx, genState.Params); err != nil", "FarmInitGenesis: err := types.ValidateGenesis(data); err != nil", "FarmInitGenesis: !exist", "FarmInitGenesis: err := k.SetParams(ctx, data.Params); err != nil"]
+
 end Irismod.Gen.PureGenesis
